@@ -25,6 +25,8 @@ THEOREMS = [
     "Aio.C13.srv_close_abnormal_exit",
     "Aio.C13.srv_close_reports_peer_code",
     "Aio.C13.cli_close_abnormal_exit",
+    "Aio.C13.srv_close_wait_is_timed",
+    "Aio.C13.cli_close_wait_is_timed",
 ]
 RULE = ("One scenario = a session configuration (server|client, autoclose, autoping, heartbeat in {none,2,8,11 s}, "
         "receive timeout in {none,0.75,3 s}, close timeout in {0.5,1.5,10 s}, writer limit in {1,20,65536} / client default) "
